@@ -5,7 +5,7 @@ from .. import gen, refs, configs, scriptrun as sr, outputs
 from ..core import Campaign, CaseResult, Violation, h
 from ..terms import to_smt, T
 
-N_QUICK = 520
+N_QUICK = 1000
 N_THOROUGH = 20000
 
 
@@ -236,6 +236,12 @@ def case(seed):
         if cls in seen:
             continue
         seen.add(cls)
+
+        from ..core import is_known
+        if is_known("C03", cls, site_for(cls, cmds)):
+            res.viol.append(Violation(cls, site_for(cls, cmds), "%s (command #%d, not minimised: matches a known finding)\n%s" % (
+                cls, b[0], b[2][:600]), sr.witness(cmds, prop="C03")))
+            continue
 
         def pred(cand, cls=cls):
             bb, _ = judge(cand)
